@@ -15,7 +15,8 @@ RULE = ("2..4 controlled threads, each reporting 1..3 tests (any outcome kind, t
         "switch (yield points: every semaphore operation and every call on the target), the schedule is a list of "
         "ints drawn by Hypothesis or enumerated by DFS with <= k pre-emptions; optional fault: the k-th call on the "
         "target raises. Oracle: the target log partitions into contiguous per-test blocks by one thread, each outcome "
-        "exactly once, per-thread order, own start time and tags, no deadlock state, semaphore count back to 1 at the "
+        "exactly once, per-thread order, own start time and tags (further time()/tags() calls by the holder between the outcome "
+        "and stopTest, or after stopTest in the same holding of the semaphore, belong to no block and are left aside), no deadlock state, semaphore count back to 1 at the "
         "end and never above 1, an injected BaseException reaches the calling thread. After the explicit schedule is used up pre-emptions continue from a congruential sequence derived from the spec (about 1 decision in 2/4/8); a scheduling point sits between a reporter's own calls; 1..3 consecutive target calls may raise; failfast may be set on the target and on the forwarders; an enumerated family restarts a forwarder with the target raising at each of its first 16 calls. "
         "The raising call raises an Exception, a BaseException, a TypeError or an AttributeError (the two classes the decorator between forwarder and target gives a meaning to), before or after the target did its work; the tests a raising call struck are known to the harness (it raised) and only they are exempt: every other test keeps its block, own start and end time, outcome kind, tags and payload also after a fault. Outcomes carry a payload naming the test (reason / details / exc_info, positionally or by keyword) which must arrive with that test; startTest, outcome and stopTest of one block are about one test; a reporter may go on reporting after stopTestRun without a new startTestRun; the target may carry run-level tags of its own; blocks are attributed to the reporter of their test, whichever thread made the calls; a timed acquire may time out whenever the semaphore is taken. Enumerated families: run-level calls raising in turn, every kind x payload form, reporting after stopTestRun, pre-tagged target. "
         "Non-trivial: a context switch "
@@ -33,6 +34,19 @@ ASSUMPTIONS = [
     "'that test's tags' are the tags the forwarder's own current_tags shows for the test; a reporter's startTestRun empties "
     "them (TestResult semantics, C17) also when the target's startTestRun raises - a forwarder that wipes its buffered "
     "run-level tags only after the target accepted the call is reported (seeded change C12-r4-1)",
+    "whether stopTestRun() / done() with no startTestRun() after them end the scope of the reporter's run-level tags is not in "
+    "the statement: 'never', 'stopTestRun does' and 'stopTestRun and done do' are all admitted, the forwarder's own current_tags "
+    "(when it matches one of the three) saying which it follows - a forwarder that drops the buffered tags but still shows them "
+    "in current_tags is reported; on a target that carries run-level tags of its own both 'a reporter's gone also takes the "
+    "target's own tag off the test' ((pre | new) - gone, what forwarding the gone set does) and 'the target's tag stays' "
+    "(pre | current_tags, what forwarding the effective set does) are admitted",
+    "the six-part block is what every test must get; time()/tags() calls beyond it made while the semaphore is held are not held "
+    "against the forwarder (the tags and time every outcome sees are still checked at the target); any call on the target made "
+    "without holding the semaphore is - including stop()/done()/startTestRun()/stopTestRun(): the anchors name them 'semaphore-"
+    "guarded', so a stop() that sets the flag without waiting for the semaphore is reported (seeded change C12-r4-3)",
+    "after a fault, when a tags() call reached the recording target outside a test (a forwarder that swallows the Exception and "
+    "carries on with a block whose startTest never was recorded), the tags the recording target attached to later outcomes are "
+    "harness state; 'that test's tags' are then read off the tags() calls of each block only",
     "a raising time()/tags() call is attributed to the test its calling thread is in the middle of reporting (a design in "
     "which one thread sends another thread's block is followed in the no-fault path only)",
     "not generated: a test reported twice or with two outcomes, start-less skips, reporters that never call time(), "
@@ -73,15 +87,19 @@ class Semaphore(S.FakeSemaphore):
     def __init__(self, sched, value=1):
         S.FakeSemaphore.__init__(self, sched, value)
         self.misses = {}
+        self.epoch = 0           # number of successful acquires so far: names one uninterrupted holding
 
     def acquire(self, blocking=True, timeout=None):
         t = S.current_task()
         if blocking and timeout is not None and timeout >= 0 and self.misses.get(t, 0) < 3:
             got = S.FakeSemaphore.acquire(self, False)
             self.misses[t] = 0 if got else self.misses.get(t, 0) + 1
+            self.epoch += bool(got)
             return got
         self.misses[t] = 0
-        return S.FakeSemaphore.acquire(self, blocking)
+        got = S.FakeSemaphore.acquire(self, blocking)
+        self.epoch += bool(got)
+        return got
 
     __enter__ = acquire
 
@@ -91,6 +109,73 @@ def _tid_of(x):
         return x.id()
     except Exception:
         return "<%s at %x>" % (type(x).__name__, id(x))
+
+
+_BY_KEYWORD = {"time": ("a_datetime",), "tags": ("new_tags", "gone_tags")}
+
+
+def positional(name, a, kw):
+    """The leading arguments of a call on the target, positionally, whichever way the forwarder passed them
+    (startTest(test=...), time(a_datetime=...)) -> (args, remaining keywords)."""
+    a, kw = tuple(a), dict(kw)
+    for i, nm in enumerate(_BY_KEYWORD.get(name, ("test",))):
+        if len(a) == i and nm in kw:
+            a += (kw.pop(nm),)
+    return a, kw
+
+
+class Tags:
+    """What 'that test's tags' may be at the target.  Two things the statement leaves open are followed in parallel:
+    whether stopTestRun() / done() end the scope of the reporter's run-level tags when no startTestRun() follows
+    (three policies), and whether a reporter's 'gone' also takes off a tag the target carries on its own ('sent':
+    (pre | new) - gone) or only the reporter's own ('own': the forwarder's current_tags, seen at the target as
+    pre | current_tags)."""
+    POLICIES = ("never", "stopTestRun", "stopTestRun+done")
+
+    def __init__(self, pre):
+        self.pre = frozenset(pre)
+        self.own = dict((p, H.TagModel()) for p in self.POLICIES)
+        self.sent = dict((p, H.TagModel()) for p in self.POLICIES)
+        for m in self.sent.values():
+            m.g = set(pre)
+
+    def _each(self):
+        return list(self.own.values()) + list(self.sent.values())
+
+    def start_run(self):
+        for m in self._each():
+            m.start_run()
+
+    def end_run(self, op):
+        for p in self.POLICIES:
+            if op in p.split("+"):
+                self.own[p].g, self.own[p].l = set(), None
+                self.sent[p].g, self.sent[p].l = set(self.pre), None
+
+    def start_test(self):
+        for m in self._each():
+            m.start_test()
+
+    def stop_test(self):
+        for m in self._each():
+            m.stop_test()
+
+    def change(self, new, gone):
+        for m in self._each():
+            m.change(new, gone)
+
+    @property
+    def current(self):
+        return self.sent["never"].current
+
+    def admitted(self, current_tags=None):
+        """The tag sets admitted for a test reported now.  The forwarder's own current_tags (a public attribute of
+        every TestResult) says which end-of-run policy it follows, when it matches one of them."""
+        pols = self.POLICIES
+        if current_tags is not None:
+            pols = [p for p in pols if self.own[p].current == set(current_tags)] or pols
+        return (set(frozenset(self.sent[p].current) for p in pols)
+                | set(frozenset(self.pre | self.own[p].current) for p in pols))
 
 
 @st.composite
@@ -221,6 +306,7 @@ def execute(spec, schedule=None):
     sched.hooks.append(hook)
     open_rep = {}            # tid -> the report of the test that thread is in the middle of
     struck = set()           # ids of tests for which a call on the target raised (the harness knows: it raised them)
+    run_level_tags = [False]     # a tags() call reached the recording target while it was not inside a test
 
     class Target:
         """The shared target: every call is a yield point and is logged with the calling thread."""
@@ -239,7 +325,10 @@ def execute(spec, schedule=None):
                 calls[0] += 1
                 holder = sem.holder
                 me = t.tid if t else None
-                log.append((me, name, a, n, sem.count, holder.tid if holder else None))
+                a, kw = positional(name, a, kw)
+                log.append((me, name, a, n, sem.count, holder.tid if holder else None, sem.epoch))
+                if name == "tags" and target_inner._local_tags is None and any(a[:2]):
+                    run_level_tags[0] = True
                 if flo is not None and flo <= n < fhi:
                     if me in open_rep:
                         struck.add(open_rep[me]["test"].id())
@@ -258,8 +347,7 @@ def execute(spec, schedule=None):
         fwd = testtools.ThreadsafeForwardingResult(target, sem)
         if spec.get("failfast") in ("forwarders", "both"):
             fwd.failfast = True
-        tagm = H.TagModel()
-        tagm.g = set(pre)
+        tagm = Tags(pre)
         rep = []
         reports.append(rep)
 
@@ -278,6 +366,7 @@ def execute(spec, schedule=None):
                         tagm.start_run()
                         fwd.startTestRun()
                     elif k == "stopTestRun":
+                        tagm.end_run(k)
                         fwd.stopTestRun()
                     elif k == "tags":
                         if spec.get("scratch_tags"):
@@ -300,6 +389,11 @@ def execute(spec, schedule=None):
                     elif k == "outcome":
                         rep[-1]["kind"] = op["kind"]
                         rep[-1]["tags"] = frozenset(tagm.current)
+                        try:
+                            own = set(fwd.current_tags)
+                        except Exception:
+                            own = None
+                        rep[-1]["tags_ok"] = tagm.admitted(own)
                         rep[-1]["end"] = now
                         rep[-1]["first_call"] = calls[0]
                         m = getattr(fwd, H.METHOD[op["kind"]])
@@ -317,6 +411,7 @@ def execute(spec, schedule=None):
                     elif k == "stop":
                         fwd.stop()
                     elif k == "done":
+                        tagm.end_run(k)
                         fwd.done()
                     elif k == "shouldStop":
                         fwd.shouldStop
@@ -348,14 +443,25 @@ def execute(spec, schedule=None):
         # only for a BaseException (ASSUMPTIONS): what becomes of an Exception the target raised is not in the statement
         vs.append(V("fault", "swallowed", "the BaseException raised by the target at call %d did not reach the calling thread" % flo))
     # ---- target calls only under the semaphore
-    for tid, name, a, n, count, holder in log:
+    for tid, name, a, n, count, holder, epoch in log:
         if count != 0 or holder != tid:
             vs.append(V("atomicity", "call-outside-critical-section-" + name,
                         "thread %s called target.%s while the semaphore was %s" % (tid, name, "free" if count else "held by thread %s" % holder)))
             break
     # ---- blocks
     block_methods = ("time", "startTest", "tags", "stopTest") + OUTCOMES
-    seq = [(tid, name, a, n) for tid, name, a, n, c, h in log if name in block_methods]
+    # Every test gets its contiguous block; a time()/tags() call the holder makes after stopTest, in the same
+    # uninterrupted holding of the semaphore and not opening its next block, is part of no block and is left aside
+    blog = [e for e in log if e[1] in block_methods]
+    seq = []
+    closed = {}              # (thread, holding) -> the last block call of that holding was stopTest
+    for x, (tid, name, a, n, c, h, epoch) in enumerate(blog):
+        if name in ("time", "tags") and c == 0 and h == tid and closed.get((tid, epoch)):
+            nxt = blog[x + 1] if x + 1 < len(blog) else None
+            if not (name == "time" and nxt is not None and nxt[1] == "startTest" and nxt[0] == tid and nxt[6] == epoch):
+                continue
+        closed[(tid, epoch)] = name == "stopTest"
+        seq.append((tid, name, a, n))
     i = 0
     seen_tests = []
     while i < len(seq):
@@ -378,8 +484,11 @@ def execute(spec, schedule=None):
         blk = seq[i:j]
         shape = [e[1] for e in blk]
         faulted_here = fault_hit and any(flo <= e[3] < fhi for e in blk)
+        # start time, startTest, end time, tags, the outcome, [more time/tags calls: they change nothing the outcome saw], stopTest
+        out_at = next((x for x, s_ in enumerate(shape) if s_ in OUTCOMES), None)
         ok_shape = (len(shape) >= 5 and shape[0] == "time" and shape[1] == "startTest" and shape[2] == "time"
-                    and all(s == "tags" for s in shape[3:-2]) and shape[-2] in OUTCOMES and shape[-1] == "stopTest")
+                    and out_at is not None and out_at >= 3 and all(s_ == "tags" for s_ in shape[3:out_at])
+                    and all(s_ in ("time", "tags") for s_ in shape[out_at + 1:-1]) and shape[-1] == "stopTest")
         if not ok_shape and not faulted_here:
             # a block cut by another thread's events, or malformed
             nxt = seq[j][0] if j < len(seq) else None
@@ -391,6 +500,7 @@ def execute(spec, schedule=None):
             # whichever thread made the calls: the tests this run of calls is about were struck
             struck.update(_tid_of(e[2][0]) for e in blk if e[1] in ("startTest", "stopTest") + OUTCOMES and e[2])
         if ok_shape:
+            blk = blk[:out_at + 1] + blk[-1:]
             test = blk[1][2][0]
             seen_tests.append((tid, test, blk))
             if not faulted_here:
@@ -437,7 +547,10 @@ def execute(spec, schedule=None):
                 if len(got) != 1:
                     vs.append(V("exactly-once", "outcome-count", "%s has %d outcomes at the target" % (r["test"].id(), len(got))))
                     continue
-                if got[0]["tags"] != r["tags"]:
+                if got[0]["tags"] not in r["tags_ok"] and not (fault_hit and run_level_tags[0]):
+                    # (after a fault a forwarder may carry on with a block whose startTest the recording target never
+                    # recorded: that block's tags are then run-level tags of the recording target - harness state, not
+                    # forwarder behaviour; the tags are then read off the blocks only, below)
                     vs.append(V("block-content", "tags", "%s delivered with tags %r, its thread had %r" % (r["test"].id(), sorted(got[0]["tags"]), sorted(r["tags"]))))
                 if not payload_ok(r.get("payload"), got[0]):
                     vs.append(V("block-content", "payload", "%s was reported with %r, the target got %r" % (
@@ -451,7 +564,7 @@ def execute(spec, schedule=None):
             for e in blk:
                 if e[1] == "tags":
                     cur = (cur | set(e[2][0])) - set(e[2][1])
-            if frozenset(cur) != r["tags"] and not any(v.bucket == "block-content:tags" for v in vs):
+            if frozenset(cur) not in r["tags_ok"] and not any(v.bucket == "block-content:tags" for v in vs):
                 vs.append(V("block-content", "tags-in-block", "block of %s carries tags %r, its thread had %r for that test%s" % (
                     test.id(), sorted(cur), sorted(r["tags"]), " (a call on the target raised earlier: %r)" % (faults_seen,) if faults_seen else "")))
     stats = {"switches": sched.switches, "open_switches": open_switch[0], "calls": calls[0], "fault_hit": fault_hit,
